@@ -1,5 +1,6 @@
 import Astits.Driver.C02
 import Astits.Driver.C06
+import Astits.Driver.DemuxProps
 import Astits.Driver.C10
 import Astits.Driver.C11
 import Astits.Driver.C12
@@ -18,6 +19,13 @@ def main (args : List String) : IO UInt32 := do
     let act : Option (Emit Unit) := match prop with
       | "C02" => some (DriverC02.run t)
       | "C06" => some (DriverC06.run t)
+      | "C03" => some (DriverDemux.runC03 t)
+      | "C07" => some (DriverDemux.runC07 t)
+      | "C08" => some (DriverDemux.runC08 t)
+      | "C16" => some (DriverDemux.runC16 t)
+      | "C18r" => some (DriverDemux.runC18r t)
+      | "C19" => some (DriverDemux.runC19 t)
+      | "C20" => some (DriverDemux.runC20 t)
       | "C10" => some (DriverC10.run t)
       | "C11" => some (DriverC11.run t)
       | "C12" => some (DriverC12.run t)
